@@ -29,6 +29,12 @@ def eM : Role := ⟨.evict, 0⟩
 
 def briefT (r : Role) : List TAct := [.acq r, .rel r]
 
+/-- `ShrinkingMap.GetOrCreate`: the optimistic read phase (read lock taken and released before anything else
+happens) is dropped, the write-locked re-check-and-create phase is a leaf acquisition. -/
+def tGetOrCreate (k : Nat) : List TAct :=
+  template [("rlock s.mutex", .skip), ("runlock s.mutex", .skip), ("lock s.mutex", .acts [.acq (leaf k)]),
+    ("defer unlock s.mutex", .deferred [.rel (leaf k)])] skel_ShrinkingMap_GetOrCreate
+
 /-! ## Variables -/
 
 /-- `variable.updateValue`; the generator passed to it runs inside the condition of its `if`. -/
@@ -193,6 +199,7 @@ def tWeightCallback (initial : Bool) : List TAct :=
 
 def tAddSorted : List TAct :=
   template [("lock s.mutex", .acts [.acq sM]), ("defer unlock s.mutex", .deferred [.rel sM]),
+    ("helper GetOrCreate", .acts (tGetOrCreate 3)),
     ("call s.weightVariable(element).OnUpdate", .acts (tOnUpdate (inV 1) (inE 1) (tWeightCallback true)))]
     skel_sortedSet_addSorted
 
@@ -230,7 +237,8 @@ def tEvict : List TAct :=
   template [("helper evict", .acts tEvictInner), ("call slotEvictedEvent.Trigger", .acts (tDerived 3 []))] skel_evictionState_Evict
 
 def tEvictionEvent : List TAct :=
-  template [("rlock e.mutex", .acts [.acq eM]), ("defer runlock e.mutex", .deferred [.rel eM])] skel_evictionState_EvictionEvent
+  template [("rlock e.mutex", .acts [.acq eM]), ("defer runlock e.mutex", .deferred [.rel eM]),
+    ("helper GetOrCreate", .acts (tGetOrCreate 4))] skel_evictionState_EvictionEvent
 
 /-! ## The catalogue -/
 
